@@ -260,6 +260,35 @@ Theorem token_history_roundtrip :
   = Some (abs rs rm ro nlen (M.run (M.genesis p balances ss reg) ms)).
 Proof. exact LinkToken.token_history_roundtrip. Qed.
 Print Assumptions token_history_roundtrip.
+
+(** round 5: the same for histories that also contain the conversion messages ([link_msg]: the C09 messages, fee-token
+    swaps, conversions to / from ERC20, the EVM hook, EVM-mode switches, beacon upgrades; NOT [Deploy]).  What these
+    messages change — bank, ERC20 ledger, EVM mode — is outside the exported genesis. *)
+Theorem reachable_token_conv :
+  forall (rs rm : M.name -> Z) (ro : M.acct -> Z) (nlen : Z -> Z),
+  (forall n, 0 <= rm n) -> (forall a, 0 <= a -> 0 <= ro a) -> (forall nm, 0 <= nm -> 0 < nlen nm <= 32) ->
+  forall p balances ss reg (ms : list M.msg),
+  pars_good p -> M.p_fee_denom p = M.STAKE -> NoDup (keys balances) -> Forall link_msg ms ->
+  inj_on rs (map fst (M.tokens (M.run (M.genesis p balances ss reg) ms))) ->
+  inj_on rm (map fst (M.minunits (M.run (M.genesis p balances ss reg) ms))) ->
+  G.invb (abs rs rm ro nlen (M.run (M.genesis p balances ss reg) ms)) = true.
+Proof. exact LinkToken.reachable_token_conv. Qed.
+Print Assumptions reachable_token_conv.
+
+Theorem token_history_conv_roundtrip :
+  forall (rs rm : M.name -> Z) (ro : M.acct -> Z) (nlen : Z -> Z),
+  (forall n, 0 <= rm n) -> (forall a, 0 <= a -> 0 <= ro a) -> (forall nm, 0 <= nm -> 0 < nlen nm <= 32) ->
+  forall p balances ss reg (ms : list M.msg),
+  pars_good p -> M.p_fee_denom p = M.STAKE -> NoDup (keys balances) -> Forall link_msg ms ->
+  inj_on rs (map fst (M.tokens (M.run (M.genesis p balances ss reg) ms))) ->
+  inj_on rm (map fst (M.minunits (M.run (M.genesis p balances ss reg) ms))) ->
+  G.validate false (G.export (abs rs rm ro nlen (M.run (M.genesis p balances ss reg) ms))) = true
+  /\ G.import false (G.export (abs rs rm ro nlen (M.run (M.genesis p balances ss reg) ms)))
+     = Some (abs rs rm ro nlen (M.run (M.genesis p balances ss reg) ms)).
+Proof.
+  intros. split; [apply LinkToken.token_history_conv_export_validates|apply LinkToken.token_history_conv_roundtrip]; assumption.
+Qed.
+Print Assumptions token_history_conv_roundtrip.
 End LinkTokenC12.
 
 (** ** farm: [invb] derived from the message-level model of the farm group ([Farm/Model.v], [Farm/Inv.v] [inv],
